@@ -491,8 +491,8 @@ func ruleScannerAgree(c *Ctx, rule, tableRule string) {
 	l := c.L
 	repoDir := filepath.Join(l.Dir, "stdlib", "json")
 	refDir := filepath.Join(build.Default.GOROOT, "src", "encoding", "json")
-	rfset, rfuncs, rlits, err1 := parseDir(repoDir, "scanner.go", "tables.go")
-	gfset, gfuncs, glits, err2 := parseDir(refDir, "scanner.go", "tables.go")
+	rfset, rfuncs, rlits, err1 := parseDir(repoDir, "scanner.go", "tables.go", "decode.go")
+	gfset, gfuncs, glits, err2 := parseDir(refDir, "scanner.go", "tables.go", "decode.go")
 	if !c.Anchor(rule, "stdlib/json/scanner.go, tables.go and the reference encoding/json sources under GOROOT", err1 == nil && err2 == nil) {
 		return
 	}
@@ -581,6 +581,45 @@ func ruleScannerAgree(c *Ctx, rule, tableRule string) {
 		c.Check(rule, "scanner helper "+name, where, a == b, "the same paths (conditions in the same order, effects, results) as encoding/json's",
 			"the helper's paths differ from encoding/json's: module {"+cut(a, 200)+"} reference {"+cut(b, 200)+"}: the scanner reports the end of input, an error or a nesting change under other conditions than the standard one (a document with one garbage byte after the top-level value is reported valid)")
 	}
+	// byte-class loops of the decoder (frozen list of confirmed copies): the body
+	// of the loop over the bytes of the input, as a function of the byte
+	for _, name := range []string{"getu4"} {
+		rf, gf := rfuncs[name], gfuncs[name]
+		if rf == nil || gf == nil {
+			continue
+		}
+		n++
+		pos := rfset.Position(rf.Pos())
+		where := fmt.Sprintf("stdlib/json/%s:%d", pos.Filename, pos.Line)
+		rt, e1 := loopTable(rfset, rf, rfuncs)
+		gt, e2 := loopTable(gfset, gf, gfuncs)
+		if e1 != "" || e2 != "" {
+			// no loop over bytes with a body that can be interpreted per byte: the
+			// function was rewritten in a form this rule cannot compare
+			c.Und(rule, "byte loop of "+name, where, "the loop over the input bytes could not be interpreted ("+e1+" "+e2+")")
+			continue
+		}
+		var diff []string
+		first := -1
+		for v := 0; v < 256; v++ {
+			if rt[v] != gt[v] {
+				diff = append(diff, strconv.QuoteRuneToASCII(rune(v)))
+				if first < 0 {
+					first = v
+				}
+			}
+		}
+		det := ""
+		if first >= 0 {
+			show := diff
+			if len(show) > 8 {
+				show = append(show[:8:8], "...")
+			}
+			det = fmt.Sprintf("for the byte(s) %s the module's %s does {%s} where encoding/json does {%s}", strings.Join(show, " "), name, cut(rt[first], 160), cut(gt[first], 160))
+		}
+		c.Check(rule, "byte loop of "+name, where, len(diff) == 0, "for each of the 256 byte values the loop body does what encoding/json's does",
+			det+": input that the validating scanner accepted is decoded differently from the standard (upper-case hex digits of a \\u escape are refused after validation, and the decoder panics 'out of sync')")
+	}
 	// character class tables
 	m := 0
 	var tnames []string
@@ -655,4 +694,40 @@ func pathTraces(fset *token.FileSet, fd *ast.FuncDecl, funcs map[string]*ast.Fun
 	}
 	sort.Strings(out)
 	return strings.Join(out, " || "), ""
+}
+
+// loopTable: byte value -> outcome of the body of the function's first loop
+// `for _, c := range <bytes>`.
+func loopTable(fset *token.FileSet, fd *ast.FuncDecl, funcs map[string]*ast.FuncDecl) ([256]string, string) {
+	var tab [256]string
+	var rs *ast.RangeStmt
+	ast.Inspect(fd.Body, func(n ast.Node) bool {
+		if r, ok := n.(*ast.RangeStmt); ok && rs == nil {
+			if _, ok := r.Value.(*ast.Ident); ok {
+				rs = r
+			}
+		}
+		return rs == nil
+	})
+	if rs == nil {
+		return tab, "no range loop with a value variable"
+	}
+	e := &scanEval{fset: fset, cName: rs.Value.(*ast.Ident).Name, funcs: funcs, limit: 20000}
+	fall := e.run(rs.Body.List, fullSet(), nil)
+	for k, s := range fall {
+		for v := range s {
+			if s[v] {
+				e.out[v] = append(e.out[v], k+" ; <next>")
+			}
+		}
+	}
+	if e.aborted != "" {
+		return tab, e.aborted
+	}
+	for v := range e.out {
+		o := append([]string(nil), e.out[v]...)
+		sort.Strings(o)
+		tab[v] = strings.Join(o, " || ")
+	}
+	return tab, ""
 }
